@@ -153,13 +153,15 @@ def pull {α : Type} (f : Name → Name) (vars : List Name) (ρ : Env α) : Env 
     | some n => ρ.dvar n
     | none => none
 
-/-- Exact rational arithmetic; `**` only for integer exponents; errors are `none`. -/
+/-- Exact rational arithmetic; `**` only for integer exponents of modulus ≤ 24 (the window the
+    correspondence evaluates); errors are `none`. -/
 def ratPowNat (a : Rat) : Nat → Rat
   | 0 => 1
   | n+1 => ratPowNat a n * a
 
 def ratPow (a b : Rat) : Option Rat :=
   if b.den ≠ 1 then none
+  else if b.num.natAbs > 24 then none
   else if 0 ≤ b.num then some (ratPowNat a b.num.toNat)
   else if a = 0 then none
   else some (1 / ratPowNat a (-b.num).toNat)
@@ -226,6 +228,22 @@ def classify (syms : List Sym) : Lists :=
 
 def Sym.has (s : Sym) (k : String) : Bool := s.prefixes.contains k
 
+/-- Does the symbol carry one of the five prefixes that select a list? -/
+def Sym.classified (s : Sym) : Bool :=
+  s.has "state" || s.has "constant" || s.has "parameter" || s.has "input" || s.has "output"
+
+/-- `exitClass` with proposed fix C24-4: a symbol without any of the five class prefixes
+    (no prefix at all, or only prefixes such as `discrete`) is a plain variable. -/
+def classifyFix (syms : List Sym) : Lists :=
+  let x := pick "state" syms
+  let y := pick "output" syms
+  { x := x
+    y := y
+    c := pick "constant" syms
+    p := pick "parameter" syms
+    u := pick "input" syms
+    v := syms.filter (fun s => !s.classified) ++ y.filter (fun s => !(x.any (fun t => t.name == s.name))) }
+
 /-- The flat model's classes. -/
 def specX (syms : List Sym) : List Sym := syms.filter (·.has "state")
 def specC (syms : List Sym) : List Sym := syms.filter (·.has "constant")
@@ -240,6 +258,12 @@ def isVar (s : Sym) : Bool := !(s.has "state" || s.has "constant" || s.has "para
 def Regular (s : Sym) : Prop :=
   s.prefixes.Nodup ∧
   (∀ k ∈ s.prefixes, k = "state" ∨ k = "constant" ∨ k = "parameter" ∨ k = "input" ∨ k = "output") ∧
+  (s.has "output" = true → s.has "constant" = false ∧ s.has "parameter" = false ∧ s.has "input" = false)
+
+/-- Prefixes each at most once, `output` not combined with `constant` / `parameter` / `input`
+    (other prefixes such as `discrete` allowed). -/
+def WeakRegular (s : Sym) : Prop :=
+  s.prefixes.Nodup ∧
   (s.has "output" = true → s.has "constant" = false ∧ s.has "parameter" = false ∧ s.has "input" = false)
 
 /-- Identifiers and display names of one list, as written by the template. -/
